@@ -424,12 +424,28 @@ func main() {
 		// not a property of the compiler); a wall-clock watchdog of 6x the bound kills real hangs
 		c0 := cpuMillis()
 		id := c.ID
-		wd := time.AfterFunc(time.Duration(*timeout*6)*time.Second, func() {
-			fmt.Fprintf(os.Stdout, "%s\ttimeout\t%d\tslow\tno result after %d s wall, %d ms cpu\n", id, *timeout*6000, *timeout*6, cpuMillis()-c0)
-			os.Exit(3)
-		})
+		// watchdog: polls the CPU time of the case every 250 ms and gives up when the bound is exceeded
+		// (a compiler that spins is reported after ~timeout seconds), or after 6x the bound in wall time
+		stop := make(chan struct{})
+		t0 := time.Now()
+		go func() {
+			tk := time.NewTicker(250 * time.Millisecond)
+			defer tk.Stop()
+			for {
+				select {
+				case <-stop:
+					return
+				case <-tk.C:
+					cpu := cpuMillis() - c0
+					if cpu > int64(*timeout)*1000 || time.Since(t0) > time.Duration(*timeout*6)*time.Second {
+						fmt.Fprintf(os.Stdout, "%s\ttimeout\t%d\tslow\tno result after %d ms of CPU time, %d ms wall\n", id, cpu, cpu, time.Since(t0).Milliseconds())
+						os.Exit(3)
+					}
+				}
+			}
+		}()
 		kind, verdict, detail := runFuzz(exp, c)
-		wd.Stop()
+		close(stop)
 		ms := cpuMillis() - c0
 		if verdict == "ok" && ms > int64(*timeout)*1000 {
 			verdict, detail = "slow", fmt.Sprintf("%d ms of CPU time", ms)
